@@ -225,6 +225,7 @@ class Reporter:
         self.coverage = {'samples': []}
         self.assumptions = []
         self.violations = {}  # signature -> record
+        self.group_counts = {}
         self.violation_count = 0
         self.known = {}  # finding id -> count
         self.known_findings = load_known_findings(prop)
@@ -264,8 +265,14 @@ class Reporter:
                     self.known[e['id']] = self.known.get(e['id'], 0) + 1
                     return False
         self.violation_count += 1
-        if sig not in self.violations and len(self.violations) < 200:
-            self.violations[sig] = record
+        if sig not in self.violations and record is not None:
+            # keep at most 25 distinct signatures per group (= the first two
+            # '|'-separated fields) so that one noisy class cannot hide others
+            grp = '|'.join(sig.split('|')[:2])
+            n = self.group_counts.get(grp, 0)
+            if n < 25 and len(self.violations) < 500:
+                self.group_counts[grp] = n + 1
+                self.violations[sig] = record
         return True
 
     def merge(self, part):
